@@ -8,8 +8,9 @@ import subprocess
 import sys
 
 
-def call(module, function, args, timeout=1800):
+def call(module, function, args, timeout=1800, env_extra=None):
     env = dict(os.environ)
+    env.update(env_extra or {})
     r = subprocess.run([sys.executable, "-m", "mc.isolated", module, function, json.dumps(args)], capture_output=True, text=True, timeout=timeout, env=env,
                        cwd=os.path.dirname(os.path.dirname(os.path.abspath(__file__))))
     for line in reversed(r.stdout.splitlines()):
